@@ -787,6 +787,14 @@ class Exec:
                     q = self.symbv('q', n).t
                     r = self.symbv('r', n).t
                     self.solver.add(z3.ULT(r, yc), z3.ULE(q, z3.BitVecVal((2 ** n - 1) // d, n)), q * yc + r == x)
+                    if op == '/' and getattr(self, 'eager_div', 0):
+                        # small quotient domain: fork over its values now, so that everything derived from it is concrete
+                        for _ in range(self.eager_div):
+                            v = self.memo(lambda: self._model_value(q))
+                            if v is None:
+                                raise PathEnd()
+                            if self.branch(q == v):
+                                return BV(z3.BitVecVal(v, n), n, sg)
                     return BV(q if op == '/' else r, n, sg)
                 return BV(z3.UDiv(x, y) if op == '/' else z3.URem(x, y), n, sg)
             if op == '&':
